@@ -173,11 +173,23 @@ func TestRoundTrip(t *testing.T) {
 			ev.Class("no_valid_value", 1)
 			rt.Skip("no valid value for the schema")
 		}
+		// The laws quantify over whatever Unserialize accepts, not over what the reference says it should accept: a
+		// quarter of the inputs are pushed just outside one declared constraint. Whether such an input is accepted is
+		// C02/C03's business; if it is, the result must still validate, serialize and round-trip.
+		perturbed := ""
+		if rapid.IntRange(0, 3).Draw(rt, "perturb") == 0 {
+			if pv, label := gen.Perturb(rt, s, nil, mv); label != "" {
+				mv, perturbed = pv, label
+			}
+		}
 		r := gen.Render(rt, s, nil, mv)
 		c := Case{Spec: s, Raw: r.V}
 		msg, class := RunRoundTrip(c)
 		nontrivial := class == "accepted" && hasContainer(s) && r.NonCanonical
 		classes := []string{class, "root=" + s.Kind}
+		if perturbed != "" {
+			classes = append(classes, "perturbed:"+class)
+		}
 		if class == "accepted" {
 			for k := range spec.Kinds(s) {
 				classes = append(classes, "accepted_with:"+k)
@@ -341,7 +353,23 @@ func RunTyped(c Case) (string, string) {
 		return fmt.Sprintf("Unserialize(%s) = (%#v, %v) but UnserializeType = (%#v, %v)", c.Raw, u, uerr, ut, uterr), "accepted"
 	}
 	if uerr != nil {
-		return "", "rejected"
+		// both reject the raw form; if the raw value happens to be of the schema's native type, the native-side
+		// entry points must agree on it as well
+		var verr, vterr, serr, sterr error
+		raw := c.Raw.Go()
+		if p := safely(func() { vterr = tp.valid(raw); _, sterr = tp.ser(raw) }); p != nil {
+			return "", "rejected" // not a value of the static type (the assertion in the adapter failed)
+		}
+		if p := safely(func() { verr = tp.untyped.Validate(raw); _, serr = tp.untyped.Serialize(raw) }); p != nil {
+			return "", "panic_left_to_C04"
+		}
+		if (verr == nil) != (vterr == nil) {
+			return fmt.Sprintf("Validate(%s) = %v but ValidateType = %v", c.Raw, verr, vterr), "rejected_native"
+		}
+		if (serr == nil) != (sterr == nil) {
+			return fmt.Sprintf("Serialize(%s) fails with %v but SerializeType with %v", c.Raw, serr, sterr), "rejected_native"
+		}
+		return "", "rejected_native"
 	}
 	// compare the values up to the static result type (e.g. string vs named string)
 	if !val.Equal(fmt.Sprintf("%v", ut), fmt.Sprintf("%v", u), o) && !val.Equal(ut, u, o) {
@@ -429,6 +457,11 @@ func TestTyped(t *testing.T) {
 		mv, ok := gen.ValueFor(rt, s, nil, 3)
 		if !ok {
 			rt.Skip("no valid value")
+		}
+		if rapid.IntRange(0, 2).Draw(rt, "perturb") == 0 {
+			if pv, label := gen.Perturb(rt, s, nil, mv); label != "" {
+				mv = pv
+			}
 		}
 		r := gen.Render(rt, s, nil, mv)
 		c := Case{Spec: s, Raw: r.V}
